@@ -142,15 +142,20 @@ var fuzzSeeds = []string{
 }
 
 func FuzzVerifyArtifacts(f *testing.F) {
-	seeds := fuzzSeeds
+	seeds := append([]string{}, fuzzSeeds...)
+	// long names (just above a 4096-byte limit; a deep path of 8192 bytes): selected by the rules like short ones
+	l1, l2 := longName("segment", 4097), longName("deep", 8192)
+	seeds = append(seeds,
+		"p ok.txt 1\np "+l1+" 2\nP ALLOW ok.txt\nP DISALLOW *",
+		"m "+l2+" 1\ndp out/"+l2+" 1\nM MATCH * WITH PRODUCTS IN out FROM dst\nM REQUIRE "+l2)
 	if os.Getenv("C03_FUZZ_SEEDS") == "basic" { // evaluation of the fuzzer itself: only the first five seeds
-		seeds = fuzzSeeds[:5]
+		seeds = append([]string{}, fuzzSeeds[:5]...)
 	}
 	for _, s := range seeds {
 		f.Add(s)
 	}
 	f.Fuzz(func(t *testing.T, text string) {
-		if len(text) > 600 {
+		if len(text) > 20000 {
 			t.Skip()
 		}
 		in, ok := fuzzScenario(text)
